@@ -146,4 +146,34 @@ theorem tex2txt_crashSites (hw : T.WFInv) (fuel : Nat) (latex : Str) (o : Option
     · rename_i hnone; rw [hnone] at htot; cases htot
     · simp at h
 
+/-- C19 on the model: the list of unknowns returned by the filter never names a macro or
+    environment twice, whatever the input -/
+theorem tex2txt_unknowns_nodup (hw : T.WFInv) (fuel : Nat) (latex : Str) (o : Options) (multi : Bool)
+    (thresh : Nat) (fs : FS) (r : T2TResult)
+    (h : tex2txt T fuel latex o multi thresh fs = .ok r) : r.unknowns.Nodup := by
+  have hp := parse_inRange T hw fuel latex o multi fs
+    (if o.extr.isEmpty then [] else (splitOn ',' o.extr []).map (fun s => '\\' :: s))
+  unfold tex2txt at h
+  dsimp only at h
+  revert hp h
+  generalize ((initParser T fuel o >>= fun _ => parse T fuel latex o.defs
+    (if o.extr.isEmpty then [] else (splitOn ',' o.extr []).map (fun s => '\\' :: s)))
+      (initialState T o multi fs)) = out
+  intro h hp
+  rcases out with ⟨toks, st⟩ | m | c | _
+  case fatal => cases h
+  case crash => cases h
+  case outOfFuel => cases h
+  have hu : st.unknowns.Nodup := hp.2.unk
+  cases multi with
+  | false =>
+    simp only [Bool.not_false, if_true, Outcome.ok.injEq] at h
+    rw [← h]; exact hu
+  | true =>
+    simp only [Bool.not_true, Bool.false_eq_true, if_false] at h
+    split at h
+    · cases h
+    · simp only [Outcome.ok.injEq] at h
+      rw [← h]; exact hu
+
 end Yalafi
